@@ -143,3 +143,17 @@ package verifspec
 //@ func st.Ok_ClosureArg
 //@ property S01
 //@   ensures result == 5
+
+//@ func st.zeroAll
+//@ property S01
+//@   assigns elems(s)
+//@   loop 1 invariant 0 <= $i1 && $i1 <= len(s) && len(s) == len(old(s)) && forall(k, 0, $i1, s[k] == 0)
+//@   ensures len(result) == len(s) && prefixof(result, s) && forall(k, 0, len(result), result[k] == 0)
+//@ func st.Ok_CalleeElems
+//@ property S01
+//@   requires t != nil
+//@   ensures result == 0
+//@ func st.Bad_CalleeElems
+//@ property S01
+//@   requires t != nil
+//@   ensures result == 0
